@@ -40,6 +40,9 @@ pub struct Profile {
     pub w_fault: u32,
     pub w_eof: u32,
     pub w_advance: u32,
+    pub w_fill: u32,
+    /// keep-alive choices (seconds); non-zero values make PINGREQs appear after `Advance` steps
+    pub keepalive: Vec<u16>,
     pub fail_reason_pct: u32,
     /// Receive Maximum choices (None = absent)
     pub rm: Vec<Option<u16>>,
@@ -86,6 +89,8 @@ impl Default for Profile {
             w_fault: 2,
             w_eof: 1,
             w_advance: 0,
+            w_fill: 0,
+            keepalive: vec![0],
             fail_reason_pct: 15,
             rm: vec![None, None, Some(1), Some(2), Some(3), Some(5), Some(8), Some(20), Some(65535)],
             max_packet: vec![None],
@@ -161,7 +166,7 @@ pub fn deliver_props() -> BoxedStrategy<Vec<Prop>> {
         (1u32..10, any::<u8>()).prop_map(|(l, v)| Prop::ResponseTopic(TopicSpec::new(l, v).name())),
         prop::collection::vec(any::<u8>(), 0..6).prop_map(Prop::CorrelationData),
         (small_string(), small_string()).prop_map(|(k, v)| Prop::UserProperty(k, v)),
-        prop_oneof![1u32..128, 128u32..20000, Just(268_435_455u32)].prop_map(Prop::SubscriptionId),
+        prop_oneof![1u32..128, 128u32..20000, Just(16_384u32), Just(2_097_151u32), Just(2_097_152u32), Just(33_554_432u32), Just(268_435_455u32), 1u32..=268_435_455].prop_map(Prop::SubscriptionId),
     ];
     prop::collection::vec(one, 0..5)
         .prop_map(|v| {
@@ -224,7 +229,7 @@ pub fn step(p: &Profile) -> BoxedStrategy<Step> {
     }
     let user_props = prop::collection::vec((small_string(), small_string()).prop_map(|(k, v)| Prop::UserProperty(k, v)), 0..2);
     if p.w_sub > 0 {
-        let sub_props = (user_props.clone(), prop_oneof![3 => Just(None), 1 => (1u32..300).prop_map(Some)]).prop_map(|(mut u, s)| {
+        let sub_props = (user_props.clone(), prop_oneof![3 => Just(None), 1 => (1u32..300).prop_map(Some), 1 => prop_oneof![Just(16_384u32), Just(2_097_152u32), Just(33_554_431u32), Just(268_435_455u32), 1u32..=268_435_455].prop_map(Some)]).prop_map(|(mut u, s)| {
             if let Some(s) = s {
                 u.push(Prop::SubscriptionId(s));
             }
@@ -337,6 +342,9 @@ pub fn step(p: &Profile) -> BoxedStrategy<Step> {
     if p.w_eof > 0 && p.faults {
         alts.push((p.w_eof, Just(Step::Eof).boxed()));
     }
+    if p.w_fill > 0 {
+        alts.push((p.w_fill, (1u8..3, 0u8..12, any::<u8>()).prop_map(|(qos, slack, seed)| Step::PublishFill { qos, slack, seed }).boxed()));
+    }
     if p.w_advance > 0 {
         alts.push((p.w_advance, (1u32..20_000).prop_map(|ms| Step::Advance { ms }).boxed()));
     }
@@ -407,8 +415,8 @@ pub fn conn_script(p: &Profile) -> BoxedStrategy<ConnScript> {
 }
 
 pub fn cfg(p: &Profile) -> BoxedStrategy<Cfg> {
-    (p.rx.0..=p.rx.1, p.tx.0..=p.tx.1, pct(p.downgrade_pct))
-        .prop_map(|(rx, tx, downgrade)| Cfg { rx, tx, downgrade, ..Cfg::default() })
+    (p.rx.0..=p.rx.1, p.tx.0..=p.tx.1, pct(p.downgrade_pct), prop::sample::select(p.keepalive.clone()))
+        .prop_map(|(rx, tx, downgrade, keepalive)| Cfg { rx, tx, downgrade, keepalive, ..Cfg::default() })
         .boxed()
 }
 
